@@ -25,7 +25,7 @@ def P.wkind : P WKind := do
 
 def wTarget : Target → WTarget
   | .normalized s => .norm s.toUTF8.toList
-  | .notNormalized s => .notNorm s.toUTF8.toList
+  | .notNormalized b => .notNorm b
 
 def splitTime (ns : Int) : Nat × Nat := (ns.toNat / 1000000000, ns.toNat % 1000000000)
 
